@@ -24,25 +24,28 @@ sin(1e22), and - for the Annex G tables - against the platform cmath)
            "whose exact result is representable").
   annexg   arguments with a zero imaginary part, an infinity or a NaN (csqrt, clog): C99 G.6.4.2 / G.6.3.2
            tables incl. the sign of zeros and of infinities; conj-symmetry is part of the tables.
-  exact    double_factorial(n) == the correctly rounded exact integer n!! for n <= 170; ValueError above.
+  exact    double_factorial(n) == the correctly rounded exact integer n!! for every accepted n (<= 170); for
+           n >= 171 (n!! > DBL_MAX, not an accepted argument) only "raises some exception" is required.
   agree    sqrt_neg(x, is_real=True) (the form legacy code uses) and sqrt_neg(z, is_real=False) return
-           csqrt's value (<= 4 ulp normwise, against the compiled function, cross-checked with the oracle).
+           csqrt's value (<= 16 ulp normwise, against the compiled function, cross-checked with the oracle).
 
-Tolerances and their calibration (unchanged tree, 2-3 x 10^5 points per function, targeted at the worst regions)
-  hypot, csqrt, cexp: 4 ulp.  Worst seen 1.89 / 1.88 / 1.80 (normwise and per component); a rounding analysis
+Tolerances.  The statement says "a few ulp"; THIS MODULE READS THAT AS 8 ULP for hypot/csqrt/cexp/clog (and 16 ulp for the
+  agreement of the two square roots, each side being allowed 8).  The margins over the worst deviation measured on the
+  unchanged tree (2-3 x 10^5 points per function, targeted at the worst regions) are therefore 4x, not the 10x the
+  framework asks for elsewhere: a larger factor would no longer be "a few ulp".
+  hypot, csqrt, cexp: 8 ulp.  Worst seen 1.89 / 1.88 / 1.80 (normwise and per component); a rounding analysis
       of the three algorithms (libm sqrt exact, exp/sin/cos/atan2/log <= 1 ulp) bounds them by ~3 ulp.
   clog: 8 ulp.  Worst seen 3.88 normwise at |z| ~ 0.705, just inside the log1p branch (0.71 <= |z| <= 1.73),
       where the absolute error of log|z| is ~1 x 2^-52 while |log z| ~ 0.35 (ulp 2^-54); analysis gives ~5.
-      Real component inside that annulus: absolute floor 4 x 2^-52 (worst seen 0.94 x 2^-52), because Re log z
+      Real component inside 0.70 <= |z| <= 1.75: absolute floor 8 x 2^-52 (worst seen 0.94 x 2^-52), because Re log z
       vanishes on the unit circle (0.6+0.8i: exact 2.2e-17, returned 2.8e-17 - fine normwise, 1e15 "ulp" of the
       component).  This is the "away from zeros of a component" rule of the plan.
-  powers: "a few ulp" is read per unit of conditioning.  Integer |b| < 100 (repeated multiplication, condition
-      |b| w.r.t. a): 4 (1+|b|) ulp, worst seen 1.09 (1+|b|).  |b| >= 100 and non-integer b (documented switch
-      to exp(b Log a)): 8 (1 + kappa) ulp with kappa = |b| (1 + |Log a|), the condition number w.r.t. *both*
-      arguments; rounding b*Log a (|.| up to 745) alone costs |b Log a|/2 ulp.  Worst seen 1.37 (1+kappa).
-      DEVIATION from DESIGN.md, which planned 4 (1+|b|) for all integer b on a measurement of 2.8|b|: the
-      exp/log path reaches 7.8 (1+|b|) (b = 101, |Log a| = 6.4: 800 ulp), which is the accuracy of the
-      textbook algorithm (glibc's cpow is the same), not a slip; a mutation there is still >= 10^4 x larger.
+  powers: "a few ulp" is read per unit of conditioning, with ONE bound for every exponent, independent of where the
+      implementation switches algorithm: max(4 (1+|b|), 8 (1+kappa)) ulp, kappa = |b| (1 + |Log a|) = condition number of
+      a^b w.r.t. both arguments (rounding b*Log a, |.| up to 745, alone costs |b Log a|/2 ulp in a textbook exp-log
+      power; glibc's cpow is of that kind).  Worst seen: 1.09 (1+|b|) for |b| < 100 (repeated multiplication today),
+      1.37 (1+kappa) for |b| >= 100 / non-integer b (exp-log today; 7.8 (1+|b|) at b = 101, |Log a| = 6.4).
+      DEVIATION from DESIGN.md, which planned 4 (1+|b|) for integer b on a measurement of 2.8|b|.
   A wrong digit / coefficient moves results by >= 1e-10 relative (4.5e5 ulp).
 
 Known findings (compiled code, cannot be rebuilt here; each has a *region + symptom* signature, see
@@ -54,8 +57,10 @@ are still judged - a different symptom in the same region, or the same symptom e
   has a NaN angle, clog(-0+0i) = -inf+0i), KF-C20-cexp-overflow-gap (exp(x) overflows above 709.78 but the
   scaled path only starts at 710.4758: cexp(709.9+0.785i) = inf+inf i, exact 1.43e308 (1+i)),
   KF-C20-ipow-inverse-overflow (negative integer power computed as 1/a^|b|: 1e10^-31 = 0 instead of 1e-310),
-  KF-C20-sqrtneg-general (special.py, is_real=False branch: squares overflow/underflow -> NaN, cancellation
-  loses the small component, -0.0 imaginary part ignored; proposed patch out/proposed-fix-C20-1.diff).
+  KF-C20-sqrtneg-general (special.py, is_real=False branch; accepted only where observed: |z| >= 2^511 -> NaN,
+  |z| < 2^-510 -> NaN or error <= 8(1+2^-485/|z|) ulp, 0 < |Im| < |Re|/4 -> cancellation error <= 8(1+|Re/Im|) ulp,
+  Re < 0 with Im = -0.0 -> upper side of the cut; every other off-axis argument must agree to 16 ulp;
+  proposed patch out/proposed-fix-C20-1.diff).
 
 Sensitivity (tools/mut.py on the generated C / on special.py; `-- --cases 6000 --shards 4`, each 10-40 s; all CAUGHT)
   complex.c  cf_csqrt Algorithm 312 first branch `* 0.5)` -> `* 0.25)`            csqrt normal/tiny ulp
@@ -96,12 +101,14 @@ CASES = {'quick': 60000, 'thorough': 6000000}
 SHARDS = {'quick': 12, 'thorough': 16}
 TIMEOUT = {'quick': 900, 'thorough': 6 * 3600}
 
-TOL = 4.0
+# "a few ulp" is read by this module as 8 ulp (4x the worst deviation seen for hypot/csqrt/cexp, 2x for clog, whose
+# log1p branch has an analytic worst case of ~5 ulp); see the module docstring.
+TOL = 8.0
 TOL_CLOG = 8.0
-CLOG_ANNULUS_ABS = 4.0 * 2.0 ** -52
-TOL_POW_MUL = 4.0
+CLOG_ANNULUS_ABS = 8.0 * 2.0 ** -52
+TOL_POW_MUL = 4.0          # per unit of conditioning; the bound applied to every exponent is max(mul, explog), see _eval_pow
 TOL_POW_EXPLOG = 8.0
-TOL_AGREE = 4.0
+TOL_AGREE = 16.0
 
 DBL_MAX = sys.float_info.max
 DBL_MIN = sys.float_info.min
@@ -121,8 +128,10 @@ RULE = ('Hypothesis draws a function and bit-built doubles (sign, exponent class
         '(so the result must be rounded), double_factorial: 2 <= n <= 170; distinct = distinct argument hash.')
 ASSUMPTIONS = ['reference: mpmath %d-bit, inputs converted exactly, principal values with f(conj z)=conj f(z) for signed-zero imaginary parts' % O.PREC,
                'ulp(v) = spacing of doubles at |v| (2^-1074 below DBL_MIN); complex error measured normwise and per component',
-               'tolerances: hypot/csqrt/cexp 4 ulp; clog 8 ulp (+ absolute 4*2^-52 on Re inside 0.70<=|z|<=1.75); '
-               'integer power |b|<100: 4(1+|b|) ulp; exp-log path (|b|>=100 or non-integer b): 8(1+|b|(1+|Log a|)) ulp; sqrt_neg vs csqrt 4 ulp',
+               '"a few ulp" is read by this module as 8 ulp for hypot/csqrt/cexp/clog (worst measured 1.9/1.9/1.8/3.9 ulp: margin 2-4x, '
+               'deliberately not 10x) (+ absolute 8*2^-52 on Re clog inside 0.70<=|z|<=1.75); sqrt_neg vs csqrt 16 ulp',
+               'powers: max(4(1+|b|), 8(1+|b|(1+|Log a|))) ulp for every exponent (per unit of conditioning; independent of the implementation\'s |b|<100 switch)',
+               'double_factorial: exact for n<=170; for n>=171 any exception is accepted',
                'C99 Annex G.6.4.2 (csqrt) and G.6.3.2 (clog) tables; sign of NaN and the documented "+-inf" entries not compared',
                'cases whose exact result has a component above DBL_MAX are discarded (statement: exact result representable)']
 
@@ -728,20 +737,18 @@ def _eval_pow(case):
     if not O.representable(exact):
         return discard('result_not_representable', labels=['fn:' + case['fn']])
     c = Collector(labels=['fn:' + case['fn']], nontrivial=_nontrivial(re, im) and b not in (0, 1))
-    if integer and abs(b) < 100:
-        path = 'mul'
-        tol = TOL_POW_MUL * (1.0 + abs(b))
-    else:
-        path = 'explog'
-        kappa = 0.0 if a_zero else abs(b) * (1.0 + float(abs(O.clog(re, im))))
-        tol = TOL_POW_EXPLOG * (1.0 + kappa)
-    region = path
+    # one bound for every exponent, independent of where the implementation switches from repeated multiplication to
+    # exp(b Log a): max(4 (1+|b|), 8 (1+kappa)), kappa = |b| (1 + |Log a|) - a textbook exp-log power passes for any b.
+    kappa = 0.0 if a_zero else abs(b) * (1.0 + float(abs(O.clog(re, im))))
+    tol = max(TOL_POW_MUL * (1.0 + abs(b)), TOL_POW_EXPLOG * (1.0 + kappa))
+    path = 'mul' if (integer and abs(b) < 100) else 'explog'      # coverage label only (where /repo switches today)
+    region = 'integer_exponent' if integer else 'real_exponent'
     c.label('pow:' + path)
     if not integer:
         c.label('pow:real_exponent')
         if im == 0 and re < 0:
             c.label('pow:branch_cut')
-    if integer and b < 0 and path == 'mul' and not a_zero and not O.representable(O.cpow_int(re, im, -b)):
+    if integer and b < 0 and not a_zero and not O.representable(O.cpow_int(re, im, -b)):
         region = 'inverse_of_overflowing_power'
         c.label('pow:inverse_of_overflowing_power')
     if abs(exact) < O.DBL_MIN:
@@ -797,27 +804,28 @@ def _eval_sqrt_neg(case):
             region = 'normal'
             sym = 'compiled_side_wrong'
     else:
-        # ... then the regions of the interpreted formula
+        # ... then the regions of the interpreted formula (only the ones where it was actually seen to fail)
+        lo, hi = min(abs(re), abs(zi)), max(abs(re), abs(zi))
         if mode == 'general' and mx >= 2.0 ** 511:
-            region = 'square_overflow'
+            region = 'square_overflow'              # re^2 + im^2 overflows
         elif mode == 'general' and 0 < mx < 2.0 ** -510:
-            region = 'square_underflow'
+            region = 'square_underflow'             # re^2 + im^2 is subnormal or zero
         elif mode == 'general' and im is not None and im == 0 and math.copysign(1.0, im) < 0 and re < 0:
             region = 'negative_real_negzero_imag'
+        elif mode == 'general' and im is not None and 0 < abs(im) < 0.25 * abs(re):
+            region = 'near_real_axis'               # sqrt((quad - |re|)/2) cancels
         elif mode == 'general' and im is not None and im != 0:
             region = 'complex_offaxis'
         else:
             region = 'normal'
-        lo, hi = min(abs(re), abs(zi)), max(abs(re), abs(zi))
         if math.isnan(got.real) or math.isnan(got.imag):
             sym = 'nan'
         elif region == 'negative_real_negzero_imag' and got == twin.conjugate():
             sym = 'upper_side_of_cut'
-        elif region == 'complex_offaxis' and lo > 0 and e_self <= 8.0 * (1.0 + hi / lo):
-            sym = 'cancellation_bounded'
-        elif region == 'complex_offaxis' and lo > 0 and \
-                e_self <= 2.0 * float(min(abs(exact.real), abs(exact.imag)) / O.ulp(abs(exact))) + TOL:
-            sym = 'small_component_lost'
+        elif region == 'near_real_axis' and e_self <= 8.0 * (1.0 + hi / lo):
+            sym = 'cancellation_bounded'            # relative error of the small component ~ eps (re/im)^2
+        elif region == 'square_underflow' and e_self <= 8.0 * (1.0 + 2.0 ** -485 / mx):
+            sym = 'lost_bits_bounded'               # quad carries the 2^-1075 absolute rounding of the squares
         else:
             sym = _generic_symptom(got)
     c.fail({'fn': 'sqrt_neg', 'clause': 'agree', 'region': region, 'mode': mode, 'symptom': sym,
@@ -833,14 +841,13 @@ def _eval_dfact(case):
     c = Collector(labels=['fn:double_factorial'], nontrivial=2 <= n <= 170)
     if n >= 171:
         c.label('dfact:raises')
+        # outside the accepted arguments the statement only implies "not accepted": any exception will do
         try:
             r = sx.double_factorial(n)
-        except ValueError:
+        except Exception:  # noqa
             return c.result()
-        except Exception as e:  # noqa
-            c.fail({'fn': 'double_factorial', 'clause': 'raises', 'symptom': type(e).__name__}, 'n=%d raised %r' % (n, e))
-            return c.result()
-        c.fail({'fn': 'double_factorial', 'clause': 'raises', 'symptom': 'returned'}, 'n=%d returned %r instead of ValueError' % (n, r))
+        c.fail({'fn': 'double_factorial', 'clause': 'raises', 'symptom': 'returned'},
+               'n=%d (n!! > DBL_MAX) returned %r instead of raising' % (n, r))
         return c.result()
     c.label('dfact:table' if n <= 50 else 'dfact:recursion')
     with repo_call('double_factorial'):
